@@ -147,6 +147,216 @@ def translate(path):
     return '\n'.join(o)
 
 
+# ---------------------------------------------------------------------------------------------------------------------
+# geodepy.ntv2reader.interpolate_ntv2: the sub-grid test, the "finest increment" step and the row/column arithmetic
+FIELD = {'s_lat': 'sLat', 'n_lat': 'nLat', 'e_long': 'eLong', 'w_long': 'wLong', 'lat_inc': 'latInc', 'long_inc': 'longInc'}
+
+
+def translate_interp(path):
+    """-> Lean text (namespace GenNtvSel) for three slices of interpolate_ntv2, read statement by statement:
+      toSeconds     `lat *= 3600; lon *= -3600`
+      contains      the test of `for sg in grid_object.subgrids.values(): if <test>: in_subgrids.add(sg.sub_name)`
+      finestStep    the body of `for sg in in_subgrids:` (state inc, in_grid)
+      cellOf        from `num_cols = …` to the bicubic → bilinear fall-back
+    Reading: `sg.<field>` / `in_grid.<field>` / `grid_object.subgrids[sg].<field>` ↦ the field of a `SubGrid`; `a <= b < c` ↦ `ops.le a b &&
+    ops.lt b c`; `int(x)` ↦ `ops.truncI x`; `int(round(x))` ↦ `ops.roundI x`; `x / y` ↦ ZeroDivisionError when `ops.isZero y`;
+    `min` on ints; `not inc` ↦ `inc` is None or zero; `method == 'bicubic'` ↦ the Boolean `wantBicubic`."""
+    tree = ast.parse(open(path).read(), filename=path)
+    fn = [n for n in tree.body if isinstance(n, ast.FunctionDef) and n.name == 'interpolate_ntv2']
+    if len(fn) != 1:
+        raise TranslateError(f'{path}: interpolate_ntv2 not found')
+    fn = fn[0]
+    if fn.decorator_list:
+        err(path, fn, 'interpolate_ntv2 is decorated')
+    if [a.arg for a in fn.args.args] != ['grid_object', 'lat', 'lon', 'method']:
+        err(path, fn, 'parameter list differs from (grid_object, lat, lon, method)')
+    body = [s for s in fn.body if not (isinstance(s, ast.Expr) and isinstance(s.value, ast.Constant))]
+
+    def field(e, objs):
+        """sg.<f> with the object one of `objs` (names) or grid_object.subgrids[sg]"""
+        if isinstance(e, ast.Attribute) and e.attr in FIELD:
+            v = e.value
+            if isinstance(v, ast.Name) and v.id in objs:
+                return f'sg.{FIELD[e.attr]}'
+            if ast.dump(v) == "Subscript(value=Attribute(value=Name(id='grid_object', ctx=Load()), attr='subgrids', ctx=Load()), slice=Name(id='sg', ctx=Load()), ctx=Load())":
+                return f'sg.{FIELD[e.attr]}'
+        return None
+
+    # --- toSeconds
+    aug = [s for s in body if isinstance(s, ast.AugAssign)]
+    if [ast.dump(a) for a in aug] != [
+            "AugAssign(target=Name(id='lat', ctx=Store()), op=Mult(), value=Constant(value=3600))",
+            "AugAssign(target=Name(id='lon', ctx=Store()), op=Mult(), value=UnaryOp(op=USub(), operand=Constant(value=3600)))"]:
+        err(path, fn, 'the unit conversion is not `lat *= 3600; lon *= -3600`')
+    # --- contains
+    loops = [s for s in body if isinstance(s, ast.For)]
+    cont = None
+    for lp in loops:
+        if ast.dump(lp.iter) == "Call(func=Attribute(value=Attribute(value=Name(id='grid_object', ctx=Load()), attr='subgrids', ctx=Load()), attr='values', ctx=Load()), args=[], keywords=[])" \
+                and isinstance(lp.target, ast.Name) and lp.target.id == 'sg' and len(lp.body) == 1 and isinstance(lp.body[0], ast.If) \
+                and not lp.body[0].orelse and not lp.orelse:
+            iff = lp.body[0]
+            if len(iff.body) == 1 and ast.dump(iff.body[0]) == "Expr(value=Call(func=Attribute(value=Name(id='in_subgrids', ctx=Load()), attr='add', ctx=Load()), args=[Attribute(value=Name(id='sg', ctx=Load()), attr='sub_name', ctx=Load())], keywords=[]))":
+                cont = iff.test
+    if cont is None:
+        err(path, fn, 'the loop `for sg in grid_object.subgrids.values(): if <test>: in_subgrids.add(sg.sub_name)` was not found')
+
+    def num(e, objs):
+        f = field(e, objs)
+        if f:
+            return f
+        if isinstance(e, ast.Name) and e.id in ('lat', 'lon'):
+            return e.id
+        err(path, e, f'operand outside the modelled subset: {ast.unparse(e)}')
+
+    def boolexpr(e, objs):
+        if isinstance(e, ast.BoolOp) and isinstance(e.op, ast.And):
+            return ' && '.join(boolexpr(v, objs) for v in e.values)
+        if isinstance(e, ast.Compare):
+            parts = []
+            left = e.left
+            for op, right in zip(e.ops, e.comparators):
+                a, b = num(left, objs), num(right, objs)
+                if isinstance(op, ast.LtE):
+                    parts.append(f'ops.le {a} {b}')
+                elif isinstance(op, ast.Lt):
+                    parts.append(f'ops.lt {a} {b}')
+                else:
+                    err(path, e, 'comparison other than <= and < in the sub-grid test')
+                left = right
+            return ' && '.join(parts)
+        err(path, e, 'sub-grid test outside the modelled subset')
+    contains_txt = boolexpr(cont, {'sg'})
+
+    # --- finestStep: the else-branch of `if len(in_subgrids) == 0`
+    sel = [s for s in body if isinstance(s, ast.If) and ast.dump(s.test) ==
+           "Compare(left=Call(func=Name(id='len', ctx=Load()), args=[Name(id='in_subgrids', ctx=Load())], keywords=[]), ops=[Eq()], comparators=[Constant(value=0)])"]
+    if len(sel) != 1 or ast.dump(sel[0].body[0]) != "Return(value=Tuple(elts=[Constant(value=None), Constant(value=None), Constant(value=None), Constant(value=None)], ctx=Load()))" or len(sel[0].body) != 1:
+        err(path, fn, '`if len(in_subgrids) == 0: return None, None, None, None` was not found')
+    eb = sel[0].orelse
+    want_init = ["Assign(targets=[Name(id='inc', ctx=Store())], value=Constant(value=None))",
+                 "Assign(targets=[Name(id='in_grid', ctx=Store())], value=Constant(value=None))"]
+    if len(eb) != 3 or [ast.dump(x) for x in eb[:2]] != want_init or not isinstance(eb[2], ast.For) \
+            or ast.dump(eb[2].iter) != "Name(id='in_subgrids', ctx=Load())" or ast.dump(eb[2].target) != "Name(id='sg', ctx=Store())":
+        err(path, sel[0], 'the selection is not `inc = None; in_grid = None; for sg in in_subgrids: …`')
+
+    def take(stmts):
+        """`inc = <sg>.lat_inc; in_grid = <sg>` -> True"""
+        return len(stmts) == 2 and all(isinstance(x, ast.Assign) and len(x.targets) == 1 for x in stmts) \
+            and ast.dump(stmts[0].targets[0]) == "Name(id='inc', ctx=Store())" and field(stmts[0].value, set()) == 'sg.latInc' \
+            and ast.dump(stmts[1].targets[0]) == "Name(id='in_grid', ctx=Store())" \
+            and ast.dump(stmts[1].value) == "Subscript(value=Attribute(value=Name(id='grid_object', ctx=Load()), attr='subgrids', ctx=Load()), slice=Name(id='sg', ctx=Load()), ctx=Load())"
+    fb = eb[2].body
+    ok = len(fb) == 1 and isinstance(fb[0], ast.If) and ast.dump(fb[0].test) == "UnaryOp(op=Not(), operand=Name(id='inc', ctx=Load()))" \
+        and take(fb[0].body) and len(fb[0].orelse) == 1 and isinstance(fb[0].orelse[0], ast.If) and not fb[0].orelse[0].orelse \
+        and take(fb[0].orelse[0].body)
+    if ok:
+        t = fb[0].orelse[0].test
+        ok = isinstance(t, ast.Compare) and len(t.ops) == 1 and isinstance(t.ops[0], ast.Lt) and field(t.left, set()) == 'sg.latInc' \
+            and ast.dump(t.comparators[0]) == "Name(id='inc', ctx=Load())"
+    if not ok:
+        err(path, eb[2], 'the body of `for sg in in_subgrids` is not `if not inc: take else: if <sg>.lat_inc < inc: take`')
+
+    # --- cellOf
+    start = next((i for i, s in enumerate(body) if isinstance(s, ast.Assign) and ast.dump(s.targets[0]) == "Name(id='num_cols', ctx=Store())"), None)
+    if start is None:
+        err(path, fn, '`num_cols = …` was not found')
+    L = []
+    ints = {}
+    end = None
+
+    def flt(e):
+        f = field(e, {'in_grid'})
+        if f:
+            return f
+        if isinstance(e, ast.Name) and e.id in ('lat', 'lon'):
+            return e.id
+        if isinstance(e, ast.BinOp) and isinstance(e.op, (ast.Sub, ast.Add, ast.Mult)):
+            return f'({flt(e.left)} {dict([(ast.Sub, "-"), (ast.Add, "+"), (ast.Mult, "*")])[type(e.op)]} {flt(e.right)})'
+        if isinstance(e, ast.BinOp) and isinstance(e.op, ast.Div):
+            d = flt(e.right)
+            L.append(f'  if ops.isZero {d} then throw Err.ZeroDivisionError')
+            return f'({flt(e.left)} / {d})'
+        err(path, e, f'float expression outside the modelled subset: {ast.unparse(e)}')
+
+    def intexpr(e):
+        if isinstance(e, ast.Constant) and isinstance(e.value, int) and not isinstance(e.value, bool):
+            return str(e.value)
+        if isinstance(e, ast.Name) and e.id in ints:
+            return ints[e.id]
+        if isinstance(e, ast.BinOp) and isinstance(e.op, (ast.Add, ast.Sub)):
+            return f'({intexpr(e.left)} {"+" if isinstance(e.op, ast.Add) else "-"} {intexpr(e.right)})'
+        if isinstance(e, ast.Call) and isinstance(e.func, ast.Name) and e.func.id == 'int' and len(e.args) == 1 and not e.keywords:
+            a = e.args[0]
+            if isinstance(a, ast.Call) and isinstance(a.func, ast.Name) and a.func.id == 'round' and len(a.args) == 1 and not a.keywords:
+                x = flt(a.args[0])
+                return f'(← ops.roundI {x})'
+            x = flt(a)
+            return f'(← ops.truncI {x})'
+        if isinstance(e, ast.Call) and isinstance(e.func, ast.Name) and e.func.id == 'min' and len(e.args) == 2 and not e.keywords:
+            return f'(min {intexpr(e.args[0])} {intexpr(e.args[1])})'
+        err(path, e, f'integer expression outside the modelled subset: {ast.unparse(e)}')
+    cnt = 0
+    for i in range(start, len(body)):
+        s = body[i]
+        if isinstance(s, ast.Assign) and len(s.targets) == 1 and isinstance(s.targets[0], ast.Name) and \
+                s.targets[0].id in ('num_cols', 'num_rows', 'row', 'col'):
+            t = intexpr(s.value)
+            cnt += 1
+            v = f'{s.targets[0].id}_{cnt}'
+            L.append(f'  let {v} : Int := {t}')
+            ints[s.targets[0].id] = v
+            continue
+        if isinstance(s, ast.If) and not s.orelse and len(s.body) == 1 and \
+                ast.dump(s.body[0]) == "Assign(targets=[Name(id='method', ctx=Store())], value=Constant(value='bilinear'))":
+            t = s.test
+            ok = isinstance(t, ast.BoolOp) and isinstance(t.op, ast.And) and len(t.values) == 2 and \
+                ast.dump(t.values[0]) == "Compare(left=Name(id='method', ctx=Load()), ops=[Eq()], comparators=[Constant(value='bicubic')])" \
+                and isinstance(t.values[1], ast.UnaryOp) and isinstance(t.values[1].op, ast.Not)
+            if not ok:
+                err(path, s, 'the fall-back test is not `method == \'bicubic\' and not (<stencil fits>)`')
+            inner = t.values[1].operand
+
+            def ib(e):
+                if isinstance(e, ast.BoolOp) and isinstance(e.op, ast.And):
+                    return ' && '.join(ib(v) for v in e.values)
+                if isinstance(e, ast.Compare) and all(isinstance(o, ast.LtE) for o in e.ops):
+                    parts, left = [], e.left
+                    for right in e.comparators:
+                        parts.append(f'decide ({intexpr(left)} ≤ {intexpr(right)})')
+                        left = right
+                    return ' && '.join(parts)
+                err(path, e, 'stencil test outside the modelled subset')
+            fits = ib(inner)
+            L.append(f'  let bicubic : Bool := if wantBicubic && !({fits}) then false else wantBicubic')
+            end = i
+            break
+        err(path, s, f'statement outside the modelled subset in the row/column arithmetic: {ast.unparse(s)[:80]}')
+    if end is None or set(ints) != {'num_cols', 'num_rows', 'row', 'col'}:
+        err(path, fn, 'the row/column arithmetic does not end in the bicubic → bilinear fall-back')
+    L.append(f'  pure {{ numCols := {ints["num_cols"]}, numRows := {ints["num_rows"]}, row := {ints["row"]}, col := {ints["col"]}, bicubic := bicubic }}')
+    o = ['import GeodeVerif.Model.Ntv2',
+         '-- GENERATED by translator/ntv2d2lean.py from geodepy/ntv2reader.py (interpolate_ntv2) — do not edit.',
+         'set_option linter.unusedVariables false',
+         'namespace GenNtvSel', 'open Ntv2', '', 'section',
+         'variable {α : Type} [Add α] [Sub α] [Mul α] [Div α]', '',
+         '/-- `lat *= 3600; lon *= -3600` -/',
+         'def toSeconds (ops : Ops α) (lat lon : α) : α × α := (lat * ops.ofInt 3600, lon * ops.ofInt (-3600))', '',
+         '/-- the test under which a sub-grid\'s name goes into `in_subgrids` -/',
+         'def contains (ops : Ops α) (sg : SubGrid α) (lat lon : α) : Bool :=', '  ' + contains_txt, '',
+         '/-- the body of `for sg in in_subgrids:` (state `inc`, `in_grid`) -/',
+         'def finestStep (ops : Ops α) (st : Option α × Option (SubGrid α)) (sg : SubGrid α) : Option α × Option (SubGrid α) :=',
+         '  let notInc : Bool := match st.1 with | none => true | some inc => ops.isZero inc',
+         '  if notInc then (some sg.latInc, some sg)',
+         '  else match st.1 with',
+         '    | some inc => if ops.lt sg.latInc inc then (some sg.latInc, some sg) else st',
+         '    | none => st', '',
+         '/-- `num_cols`, `row`, `col`, `num_rows`, the clamps and the method fall-back -/',
+         'def cellOf (ops : Ops α) (sg : SubGrid α) (lat lon : α) (wantBicubic : Bool) : Except Err Cell := do'] + L + [
+         '', 'end', '', 'end GenNtvSel', '']
+    return '\n'.join(o)
+
+
 def main():
     ap = argparse.ArgumentParser()
     ap.add_argument('--repo', default='/repo')
@@ -154,13 +364,16 @@ def main():
     a = ap.parse_args()
     try:
         txt = translate(os.path.join(a.repo, 'geodepy', 'transform.py'))
+        txt2 = translate_interp(os.path.join(a.repo, 'geodepy', 'ntv2reader.py'))
     except (TranslateError, SyntaxError, OSError, IndexError) as e:
         print(f'TRANSLATE-ERROR {e}')
         sys.exit(3)
-    old = open(a.out).read() if os.path.exists(a.out) else None
-    if old != txt:
-        os.makedirs(os.path.dirname(a.out), exist_ok=True)
-        open(a.out, 'w').write(txt)
+    out2 = os.path.join(os.path.dirname(a.out), 'NtvSel.lean')
+    for path, t in ((a.out, txt), (out2, txt2)):
+        old = open(path).read() if os.path.exists(path) else None
+        if old != t:
+            os.makedirs(os.path.dirname(path), exist_ok=True)
+            open(path, 'w').write(t)
     print('ok')
 
 
